@@ -50,6 +50,25 @@ type prPlan struct {
 	ID     int
 	Cancel bool
 	Pools  []prPool
+	// pools that share an id (Engine.tla, "pool ids"): "" / "none" = distinct ids r<run>p<pool>; "same" = every pool
+	// carries the id r<run>p0; "default" = the first pool is called `pool_1`, the second has no id (the engine
+	// generates pool_1 for it).  The hook lines of such a run carry p = 0: TraceEngine.tla attributes them.
+	DupID string
+}
+
+func (pl prPlan) poolID(run, p int) string {
+	switch pl.DupID {
+	case "same":
+		return fmt.Sprintf("r%dp0", run)
+	case "default":
+		if p == 1 {
+			return "pool_1"
+		}
+		if p == 2 {
+			return ""
+		}
+	}
+	return fmt.Sprintf("r%dp%d", run, p)
 }
 
 // one line of the trace; every field is always present (TLC reads fields unconditionally)
@@ -456,6 +475,9 @@ func prSink(pool string, seq int64, ev string, n int, err error) {
 		return
 	}
 	m := prPoolRe.FindStringSubmatch(pool)
+	if m == nil && pool == "pool_1" && r.plan.DupID == "default" {
+		m = []string{"", strconv.Itoa(r.id), "0"} // the explicit id and the generated one coincide: pool not attributable
+	}
 	if m == nil {
 		return
 	}
@@ -495,7 +517,7 @@ func prRunOne(w *vt.Writer, id int, plan prPlan, seed int64, cancelAt int, watch
 		p := i + 1
 		f := &prFactory{r: r, p: p, pl: pl}
 		conf.Pools = append(conf.Pools, engine.InstancePoolConfig{
-			ID:              fmt.Sprintf("r%dp%d", id, p),
+			ID:              plan.poolID(id, p),
 			Provider:        &prProvider{r: r, p: p, pl: pl, q: make(chan int)},
 			Aggregator:      &prAggregator{r: r, p: p, pl: pl},
 			NewGun:          f.NewGun,
@@ -571,6 +593,7 @@ func prRunOne(w *vt.Writer, id int, plan prPlan, seed int64, cancelAt int, watch
 			if m := prPoolRe.FindStringSubmatch(err.Error()); m != nil && strings.Contains(err.Error(), "pool run failed") {
 				e.P, _ = strconv.Atoi(m[2])
 			}
+			// (pools sharing the id `pool_1`: p stays 0, as for the id r<run>p0)
 		}
 		r.emit(e)
 		close(runDone)
@@ -615,6 +638,9 @@ func prDecodePlans(path string) []prPlan {
 	var out []prPlan
 	for _, m := range vt.ReadNDJSON(path) {
 		pl := prPlan{ID: vt.Int(m["id"]), Cancel: vt.Bool(m["cancel"])}
+		if d, ok := m["dupid"].(string); ok && d != "none" {
+			pl.DupID = d
+		}
 		for _, x := range vt.List(m["pools"]) {
 			pm := vt.Map(x)
 			pl.Pools = append(pl.Pools, prPool{
